@@ -44,7 +44,6 @@ type scenario struct {
 	call     func(a [][]byte) outcome
 	mayAlias map[string]bool  // argument roles a result is allowed to share memory with
 	inner    func() *scenario // the exported function one level down, fed the same arguments
-	expect   string           // intended path outcome: ok | error | panic-or-error | any
 }
 
 const guard = 32
